@@ -338,26 +338,39 @@ pub fn cut_fragmented_mixed() -> Vec<(String, Vec<u8>, Option<Vec<u8>>)> {
 /// cut positions worth exploring: the whole header region, and around every power of two, every multiple of 64 KiB
 /// near a sample edge, 1 MiB past the start of the large sample, and every sample boundary.
 pub fn cut_large_sample() -> (String, Vec<u8>, Vec<usize>) {
-    let sizes = [100u32, 3 << 19, 70 << 10, 10];
+    cut_large_sample_of(3 << 19, "1.5 MiB")
+}
+
+/// The same with a sample just above 16 MiB.
+pub fn cut_very_large_sample() -> (String, Vec<u8>, Vec<usize>) {
+    cut_large_sample_of((16 << 20) + 4096, "16 MiB + 4 KiB")
+}
+
+fn cut_large_sample_of(big_size: u32, label: &str) -> (String, Vec<u8>, Vec<usize>) {
+    let sizes = [100u32, big_size, 70 << 10, 10];
     let samples: Vec<LSample> = sizes.iter().enumerate().map(|(i, s)| LSample { size: *s, delta: 10 + i as u32, cts: 0, sync: i == 0 }).collect();
     let t = LTrack::simple(1, Codec::Avc, 1000, samples, vec![1, 2, 1]);
     let mut m = LMovie::new(1000, vec![t]);
     m.mdat_open_ended = true;
     let (bytes, payload) = encode(&m);
     let n = bytes.len();
-    let mut cuts: Vec<usize> = (0..(payload as usize + 300).min(n)).collect();
+    let mut cuts: Vec<usize> = (0..(payload as usize + 300).min(n)).step_by(if big_size > 1 << 22 { 5 } else { 1 }).collect();
     let mut edges = vec![payload as usize + 3];
     for s in sizes.iter() {
         let e = *edges.last().unwrap() + *s as usize;
         edges.push(e);
     }
     let mut marks: Vec<usize> = edges.clone();
-    for j in 10..=21 {
-        marks.push(1usize << j);
+    for j in 10..=24 {
+        if (1usize << j) < n {
+            marks.push(1usize << j);
+        }
     }
     let big = edges[1];
-    for k in [1usize << 16, 1 << 20, (1 << 20) + (1 << 16), 3 << 19] {
-        marks.push(big + k);
+    for k in [1usize << 16, 1 << 20, (1 << 20) + (1 << 16), 3 << 19, 1 << 24, (1 << 24) + 1] {
+        if big + k < n {
+            marks.push(big + k);
+        }
     }
     marks.push(n);
     for mk in marks {
@@ -370,7 +383,7 @@ pub fn cut_large_sample() -> (String, Vec<u8>, Vec<usize>) {
     }
     cuts.sort();
     cuts.dedup();
-    ("moov first, open-ended mdat, samples of 100 B / 1.5 MiB / 70 KiB / 10 B (selected cuts)".into(), bytes, cuts)
+    (format!("moov first, open-ended mdat, samples of 100 B / {} / 70 KiB / 10 B (selected cuts)", label), bytes, cuts)
 }
 
 /// Extra files for the fault sweep of C10: (name, bytes).
